@@ -220,7 +220,9 @@ pub fn part_second_lifecycle(tier: Tier) -> Part {
             let second: Vec<Vec<String>> = d.obs[at.min(d.obs.len())..].iter().map(wire_shape).collect();
             if second != fresh_shape {
                 let k = (0..second.len().min(fresh_shape.len())).find(|i| second[*i] != fresh_shape[*i]).unwrap_or(0);
-                v.push((format!("C12:second-lifecycle:differs-from-a-fresh-one:{}", life[k.min(life.len() - 1)].label()), format!("[{}] {name}: while `{}` of the second lifecycle was handled the adapter wrote {:?}; on a fresh connection {:?}", p.name(), life[k.min(life.len() - 1)].label(), second.get(k), fresh_shape.get(k))));
+                // what the adapter said when it refused (helps to tell a race from a rule)
+                let refusals: Vec<String> = d.obs[at.min(d.obs.len())..].iter().flat_map(|o| o["wire"].as_array().cloned().unwrap_or_default()).filter(|m| m["type"] == "response" && m["success"] == false).map(|m| format!("{}: {}", m["command"].as_str().unwrap_or("?"), m["message"].as_str().or(m["body"]["error"]["format"].as_str()).unwrap_or("?"))).collect();
+                v.push((format!("C12:second-lifecycle:differs-from-a-fresh-one:{}", life[k.min(life.len() - 1)].label()), format!("[{}] {name}: while `{}` of the second lifecycle was handled the adapter wrote {:?}; on a fresh connection {:?}; refusals: {refusals:?}", p.name(), life[k.min(life.len() - 1)].label(), second.get(k), fresh_shape.get(k))));
             }
             (v, format!("{second:?}"))
         };
